@@ -1030,3 +1030,10 @@ def unit_scalar(inj, scratch):
     out.append('}')
     inj.new_file(FRAG_FILE, '\n'.join(out) + '\n')
     return dict(functions=recs, dropped=dropped)
+
+
+def unit_utilmod(inj, scratch):
+    rel = 'src/util/mod.rs'
+    s = src(rel, scratch)
+    inj.append(rel, H('utilmod.kani.rs'))
+    return dict(functions=[fn_record(s, 'parse_filesize', 'K', how='whole real function; postcondition asserted on concrete witness literals in an appended harness')], dropped=[])
